@@ -21,14 +21,16 @@ guards are evaluated by the model: guards true ⇒ the real edit succeeded, `che
 recorded step is `ReplaceStep(p, p, slice)` (relational); the guard parts with a Python counterpart are compared exactly
 (`boundary` = `resolve(p).text_offset == 0`, `inside` = `insideTextGuard` re-run on the real `can_replace`, `marks` = the parent of `p` allows the node's marks, `trivial` = the real
 `fits_trivially`, `pass1` = the first pass of `drop_point` re-run on the real `can_replace`, `canJoin` = the real
-`can_join` at the join point, which must be `True`).  A marked copy of the inserted node and an aimed schema
+`can_join` at the join point, which must be `True`; `valid` = `type.valid_content(node.content)` of `changeTypeGuard`,
+evaluated wherever the real `can_change_type` approves a non-leaf node: guard ⇒ `set_node_markup` succeeds with the
+expected `ReplaceAroundStep`).  A marked copy of the inserted node and an aimed schema
 (`insert-inside-text`, content `image? text* image`) make the guards bite.
 Search: approve ⇒ perform ⇒ `check()` ∧ leaf/text sequence equal; helpers never die with an internal
 error and return in-range results; for random schemas only "a performed edit that returns is valid
 and keeps the leaf sequence".
 """
 from prosemirror.model import Fragment, Slice
-from prosemirror.transform import ReplaceStep, Transform
+from prosemirror.transform import ReplaceAroundStep, ReplaceStep, Transform
 from prosemirror.transform.replace import fits_trivially
 from prosemirror.transform.structure import (
     can_change_type,
@@ -178,7 +180,7 @@ def run(ctx):
                 if "boundary" in exp:
                     ctx.count(f"{op}: guards={g}, " + ("at a child boundary" if exp["boundary"] else "inside a text child")
                               + f", edit {'succeeded' if exp['good'] else 'failed'}")
-                for key in ("boundary", "inside", "marks", "trivial", "pass1", "canJoin"):
+                for key in ("boundary", "inside", "marks", "trivial", "pass1", "canJoin", "valid"):
                     if key in exp and exp[key] is not None and out.get(key) != exp[key]:
                         ctx.mismatch(op + " " + key, replay, exp[key], out.get(key))
                 if op == "insguard join" and exp.get("canJoin") != {"ok": True}:
@@ -272,6 +274,28 @@ def run(ctx):
                        "trivial": bool(ft) if stf == "ok" else None, "pass1": {"ok": p1} if st1 == "ok" else {"err": "raises"}}))
         ctx.count("drop_point answers: " + ("closed slice" if not sl.open_start and not sl.open_end else "open slice")
                   + (", first pass" if st1 == "ok" and p1 == dp else ", second pass"))
+
+    def retype_tie(info, d, pos, ct, replay):
+        """`canChangeType_setNodeMarkup_applies` where the real can_change_type approves and the node after `pos` is a
+        non-leaf node: tr.set_node_markup(pos, type, attrs) vs `changeTypeGuard`"""
+        stn, node = outcome(lambda: d.node_at(pos))
+        if stn != "ok" or node is None or node.is_leaf or d.resolve(pos).text_offset != 0:
+            return
+        attrs = gen.gen_attrs(rng2, ct)
+        tr = Transform(d)
+        sta, val, added = ops.run_op(tr, lambda t: t.set_node_markup(pos, ct, attrs))
+        if sta == "hang":
+            return
+        good = sta == "ok" and outcome(tr.doc.check)[0] == "ok"
+        exact = False
+        if good and len(tr.steps) == 1:
+            e = pos + node.node_size
+            want = ReplaceAroundStep(pos, e, pos + 1, e - 1, Slice(Fragment.from_(ct.create(attrs, None, node.marks)), 0, 0), 1, True)
+            exact = tr.steps[0].to_json() == want.to_json()
+        stv, valid = outcome(lambda: ct.valid_content(node.content))
+        reqs.append({"op": "insGuard", "k": "retype", "s": info.lean_id, "doc": info.node(d), "p": pos, "ty": info.nid[ct.name]})
+        metas.append(("insguard retype", dict(replay, attrs=attrs, real=str(val)[:120] if sta != "ok" else "ok"),
+                      {"good": good, "exact": exact, "valid": bool(valid) if stv == "ok" else None}))
 
     def marked(node, schema):
         """a copy of `node` carrying one mark (own random stream), or None"""
@@ -410,6 +434,8 @@ def run(ctx):
                 ct = list(schema.nodes.values())[(pos * 7 + size) % len(schema.nodes)]   # no draw from rng: the case stream stays as it was
                 stc_, okc = outcome(lambda: can_change_type(d, pos, ct))
                 tie(info, d, "canChangeType", {"pos": pos, "ty": info.nid[ct.name]}, dict(base, helper="can_change_type", type=ct.name), stc_, okc, bool)
+                if stc_ == "ok" and okc:
+                    retype_tie(info, d, pos, ct, dict(base, helper="can_change_type", type=ct.name))
                 if st != "ok":
                     ctx.violation("insert_point-raises", f"insert_point raised {ip}", replay)
                 elif ip is not None:
